@@ -97,6 +97,15 @@ OpenFunc(n)    == On("func") /\ Room /\ where = 0 /\ funcs = 0
 OpenFuncNoPar  == On("func0") /\ Room /\ where = 0 /\ funcs = 0
                   /\ env' = Append(env, Empty) /\ where' = 1 /\ funcs' = 1 /\ Item(<<"func0">>)
                   /\ envD' = Append(envD, Empty) /\ UNCHANGED rej
+\* a definition of a function NAMED n: the name is bound in the enclosing (file) scope at the end of its declarator,
+\* i.e. before the body opens (6.2.1p7) - the body may use it (recursion) and an inner declaration may hide it,
+\* a typedef included.  (The mechanism registers the name when the definition is complete; with at most one
+\* definition per history the difference cannot be observed, so envD binds it here as well.)
+OpenFuncNamed(n) == /\ On("funcN") /\ Room /\ where = 0 /\ funcs = 0 /\ Cur[n] = "none"
+                    /\ env' = Append([env EXCEPT ![1] = [@ EXCEPT ![n] = "ord"]], Empty)
+                    /\ envD' = Append([envD EXCEPT ![1] = [@ EXCEPT ![n] = "ord"]], Empty)
+                    /\ rej' = (rej \/ (CurD[n] # "none" /\ CurD[n] # "ord"))
+                    /\ where' = 1 /\ funcs' = 1 /\ Item(<<"funcN", n>>)
 \* old-style definition: the declaration list declares the parameters, in the body scope
 \* (6.7.5.3p11: an identifier that is a visible typedef name cannot stand in an identifier list)
 OpenKRFunc(n)  == On("krfunc") /\ Room /\ where = 0 /\ funcs = 0 /\ ~IsType(n)
@@ -115,7 +124,7 @@ Probe(n)       == Room /\ Item(<<"probe", n, IsType(n), IsTypeD(n)>>) /\ UNCHANG
 
 Next == \/ \E n \in Names : \/ TypedefDecl(n) \/ ObjDecl(n) \/ FuncDecl(n) \/ EnumConst(n) \/ EnumPair(n) \/ EnumInStruct(n)
                             \/ Member(n) \/ Tag(n) \/ Label(n) \/ ProtoParam(n) \/ ForInit(n)
-                            \/ ProbeInInit(n) \/ ProbeInStruct(n) \/ OpenFunc(n) \/ OpenKRFunc(n) \/ Probe(n)
+                            \/ ProbeInInit(n) \/ ProbeInStruct(n) \/ OpenFunc(n) \/ OpenFuncNamed(n) \/ OpenKRFunc(n) \/ Probe(n)
         \/ OpenFuncNoPar \/ OpenBlock \/ Close
 Spec == Init /\ [][Next]_vars
 
@@ -125,7 +134,7 @@ TypeOK == /\ Len(env) = where + 1 /\ where <= MaxDepth /\ Len(prog) <= MaxItems
 InnermostWins ==
   \A n \in Names : IsType(n) <=> \E i \in 1..Len(env) : env[i][n] = "type" /\ \A j \in (i+1)..Len(env) : env[j][n] = "none"
 \* closing a scope restores exactly what was visible before it was opened (checked as an action property)
-IsOpen(it)  == it[1] \in {"open", "func", "func0", "krfunc"}
+IsOpen(it)  == it[1] \in {"open", "func", "func0", "funcN", "krfunc"}
 CloseRestores == [][ (where' = where - 1) => env' = SubSeq(env, 1, Len(env) - 1) ]_vars
 
 \* the mechanism refines the truth on histories without a deviation item
